@@ -917,13 +917,37 @@ func (w *Walker) ret(x *ast.ReturnStmt, st *pstate, c *ctl) {
 			return
 		}
 	}
+	// `return R, f(…)`: a result that is a call of a function of the module with a single result is walked like
+	// the statement form `err := f(…); return R, err` (its effects are effects of this path), left to right
 	vals := make([]string, len(x.Results))
-	for i, r := range x.Results {
+	var step func(i int, st *pstate)
+	step = func(i int, st *pstate) {
+		if i == len(x.Results) {
+			t.ret(st, append([]string{}, vals...))
+			return
+		}
+		r := x.Results[i]
+		if call, ok := ast.Unparen(r).(*ast.CallExpr); ok && len(x.Results) > 1 {
+			if target := w.P.Funcs[w.calleeOf(call, c)]; target != nil && w.Inline(c.fn, target) && len(st.stack) <= w.MaxDepth && !onStack(st.stack, target) {
+				if sig, ok := target.Obj.Type().(*types.Signature); ok && sig.Results().Len() == 1 {
+					w.call(call, st, c, func(s2 *pstate, vs []string) {
+						if len(vs) == 1 {
+							vals[i] = vs[0]
+						} else {
+							vals[i] = w.canon(r, s2, c)
+						}
+						step(i+1, s2)
+					})
+					return
+				}
+			}
+		}
 		w.evalCalls(r, st, c)
 		vals[i] = w.canon(r, st, c)
 		st = w.litWrites(r, "return", x, st, c)
+		step(i+1, st)
 	}
-	t.ret(st, vals)
+	step(0, st)
 }
 
 // ---------------------------------------------------------------------------------------------
@@ -1050,6 +1074,11 @@ func (w *Walker) cmpLit(l ast.Expr, op string, r ast.Expr, st *pstate, c *ctl) F
 	}
 	if lnil && rnil {
 		return FConst(mask&mEQ != 0)
+	}
+	// an error value that was just constructed is not nil: `return "", errors.NewInvalid(…)` in a helper followed
+	// by `if err != nil` in its caller is one branch, not two
+	if (lnil && constructedError(rs)) || (rnil && constructedError(ls)) {
+		return FConst(mask&(mLT|mGT) != 0)
 	}
 	lt := c.info.TypeOf(l)
 	// normalise: constants to the right; otherwise lexicographic order
@@ -1800,6 +1829,25 @@ func (w *Walker) exprHelper(call *ast.CallExpr, callee *types.Func, st *pstate, 
 func onStack(stack []*FuncInfo, f *FuncInfo) bool {
 	for _, g := range stack {
 		if g == f {
+			return true
+		}
+	}
+	return false
+}
+
+// constructedError recognises the canonical value of an error built on the spot by a constructor that never
+// returns nil: the typed-error constructors of onos-lib-go, fmt.Errorf, errors.New, status.Error(f).
+func constructedError(s string) bool {
+	if !strings.HasPrefix(s, "err(") {
+		return false
+	}
+	in := s[4:]
+	// errors.Status(e).Err() of a constructed typed error is the gRPC form of that error
+	if strings.HasPrefix(in, "{errors.Status(") && strings.HasSuffix(in, "}status.Status.Err())") {
+		return constructedError(in[len("{errors.Status(") : len(in)-len(")}status.Status.Err())")])
+	}
+	for _, p := range []string{"errors.New", "fmt.Errorf(", "status.Errorf(", "status.Error("} {
+		if strings.HasPrefix(in, p) {
 			return true
 		}
 	}
